@@ -15,11 +15,21 @@ static struct {
   int role, k, flag_idx, spawn_late;
 } spec[MAXFB];
 static long bound;
+static fiber_t* fptr[MAXFB];
 
 static NS long total_sw(void) { return (long)sim_switch_ins_others(NULL); }
 static NS void g_ready(int i) { ready_since[i] = total_sw(); }
 static NS void g_running(int i) {
   ready_since[i] = -1;
+  /* any number of kernel threads: a fiber sitting in the run queue of kernel thread A is bypassed once for
+   * every fiber switch on A (exact: counted from the moment it was pushed into that queue) */
+  for (int j = 0; j < nfib; j++)
+    if (j != i && fptr[j]) {
+      long b = sim_fiber_bypassed(fptr[j]);
+      if (b > bound)
+        sim_violation("C10-bypassed", "fiber %d has been in a kernel thread's run queue while that thread switched fibers %ld times (bound %ld for %d fibers, %d kernel threads)", j, b, bound,
+                      nfib, nthreads);
+    }
   if (nthreads != 1) return;
   long now = total_sw();
   for (int j = 0; j < nfib; j++)
@@ -93,6 +103,7 @@ void h_run(void) {
   for (int i = 0; i < nfib; i++) {
     g_ready(i);
     f[i] = fiber_create(STK, fib, (void*)(intptr_t)i);
+    fptr[i] = f[i];
     if (wl_pct(30)) fiber_yield();
   }
   for (int i = 0; i < nfib; i++) fiber_join(f[i], NULL);
